@@ -101,6 +101,10 @@ func c11judged() []Choice {
 		tx("change_param(no separator)", chain.TxSpec{Msg: "change_param", From: 4, Key: "nokey", Val: `"1"`}),
 		tx("change_param(unknown parameter space, by the owner)", chain.TxSpec{Msg: "change_param", From: 4, Key: "nosuchspace/SomeParam", Val: `"1"`}),
 		tx("change_param(unknown parameter space, by a stranger)", chain.TxSpec{Msg: "change_param", From: 3, Key: "nosuchspace/SomeParam", Val: `"1"`}),
+		tx("upgrade(by the owner, height already reached)", chain.TxSpec{Msg: "upgrade", From: 4, Height: 1, Val: "2.0.0"}),
+		tx("change_param(gov/acl := empty list, by the owner)", chain.TxSpec{Msg: "change_param", From: 4, Key: "gov/acl", Val: `[]`}),
+		tx("change_param(gov/acl := one entry, by the owner)", chain.TxSpec{Msg: "change_param", From: 4, Key: "gov/acl", Val: fmt.Sprintf(`[{"acl_key":"gov/acl","address":"%s"}]`, chain.Addr(4))}),
+		tx("dao_transfer(beyond the balance, to an address never seen)", chain.TxSpec{Msg: "dao_transfer", From: 4, To: 14, Amount: 1000 * min}),
 		tx("change_param(three path elements)", chain.TxSpec{Msg: "change_param", From: 3, Key: "pos/StakeMinimum/x", Val: `"1"`}),
 		tx("upgrade(non owner)", chain.TxSpec{Msg: "upgrade", From: 3, Height: 99, Val: "2.0"}),
 		tx("dao_transfer(non owner)", chain.TxSpec{Msg: "dao_transfer", From: 3, To: 2, Amount: 5}),
